@@ -16,7 +16,7 @@ ID = "C14"
 LEVEL = "exploration"
 RULE = (
     "shapes (towers x steps) in {1x1, 1x4, 3x1, 2x3, 4x2} x strategies {towers, time, both} x workers {1, 2, 3, 5} x delay schemes {none, "
-    "random, adversarial} x parent NUM_THREADS {1, 4} x cache {off, on + explicit halo, on + default halo} x timestamps {none, ISO, not lexicographically ordered, repeated, descending, free labels} x {distinct towers, twin towers "
+    "random, adversarial} x parent NUM_THREADS {1, 4} (the parent first solves with that many threads; that its thread pool is really running before the fork is observed through numba.threading_layer()) x kernel cache {warm in two worlds: seeded single-thread-first / multi-thread-first, empty (first use, in a subprocess)} x cache {off, on + explicit halo, on + default halo} x timestamps {none, ISO, not lexicographically ordered, repeated, descending, free labels} x {distinct towers, twin towers "
     "at one position/height, equal-height towers at different positions, repeated met conditions}; plus the serial timeseries and multitower drivers.  Every entry is compared with "
     "the serially computed single run (fields within 1e-12 of the maximum, bitwise counted; names, order, timestamps, params exactly). "
     "non-trivial = parallel call with >= 2 tasks; distinct = distinct (case idx, strategy, workers, delay scheme); completion orders "
@@ -34,8 +34,13 @@ MAX_SHARDS = 12
 
 def cases(tier, seed):
     n = 40 if tier == "quick" else 1200
-    return [{"seed": seed, "idx": i, "shape": SHAPES[i % len(SHAPES)], "_cost": SHAPES[i % len(SHAPES)][0] * SHAPES[i % len(SHAPES)][1] + 2}
-            for i in range(n)]
+    out = [{"seed": seed, "idx": i, "shape": SHAPES[i % len(SHAPES)], "_cost": SHAPES[i % len(SHAPES)][0] * SHAPES[i % len(SHAPES)][1] + 2}
+           for i in range(n)]
+    # first use on a machine: empty kernel cache, the parent solves with several threads, then the parallel driver forks
+    for j, strat in enumerate(("towers", "time", "both") if tier == "quick" else ("towers", "time", "both") * 4):
+        out.append({"seed": seed, "idx": 100000 + j, "kind": "cold", "strategy": strat, "parent_threads": 4 if j % 2 == 0 or tier == "quick" else 2,
+                    "_cost": 30})
+    return out
 
 
 def make_config(rng, nt, ns, cache_mode, twins, repeats):
@@ -96,9 +101,88 @@ def make_config(rng, nt, ns, cache_mode, twins, repeats):
     return cfg, raw
 
 
+COLD = r"""
+import json, os, sys, warnings
+warnings.simplefilter("ignore")
+from vlib import boot; boot.boot()
+import numpy as np, numba
+import bldfm
+from bldfm import config as rc
+from bldfm.config_parser import parse_config_dict
+strat, pth = sys.argv[1], int(sys.argv[2])
+cfg = parse_config_dict({"domain": {"nx": 16, "ny": 12, "xmax": 160.0, "ymax": 96.0, "nz": 6, "modes": [16, 12], "halo": 20.0, "ref_lat": 48.0, "ref_lon": 9.0},
+    "towers": [{"name": "A", "lat": 48.0003, "lon": 9.0006, "z_m": 4.0}, {"name": "B", "lat": 48.0005, "lon": 9.0012, "z_m": 6.0}],
+    "met": {"ustar": [0.3, 0.45], "mol": [-150.0, 300.0], "wind_speed": [3.0, 4.0], "wind_dir": [200.0, 75.0]},
+    "solver": {"closure": "MOST", "footprint": True}})
+out = {"violations": [], "pool_live": False}
+rc.NUM_THREADS = pth
+bldfm.run_bldfm_single(cfg, cfg.towers[0], met_index=0)      # the parent's multi-thread solve (compiles the threaded kernel: cache is empty)
+try:
+    out["layer"] = numba.threading_layer(); out["pool_live"] = True
+except Exception as e:
+    out["layer"] = None
+try:
+    res = bldfm.run_bldfm_parallel(cfg, max_workers=2, parallel_over=strat)
+except BaseException as e:
+    out["violations"].append({"what": "parallel_driver_raises", "exc": f"{type(e).__name__}: {str(e)[:300]}"})
+    res = None
+rc.NUM_THREADS = 1
+n = 0
+if res is not None:
+    if list(res) != ["A", "B"]:
+        out["violations"].append({"what": "tower_keys_not_in_configuration_order", "got": list(res)})
+    for tw in cfg.towers:
+        for i in range(2):
+            exp = bldfm.run_bldfm_single(cfg, tw, met_index=i)
+            got = (res.get(tw.name) or [None, None])[i]
+            n += 1
+            if got is None or got.get("timestamp") != exp["timestamp"] or got.get("tower_name") != tw.name:
+                out["violations"].append({"what": "entry_filed_under_wrong_tower_or_step", "tower": tw.name, "step": i})
+                continue
+            for k in ("conc", "flx"):
+                a, b = np.asarray(got[k]), np.asarray(exp[k])
+                if a.shape != b.shape or not np.max(np.abs(a - b)) <= 1e-12 * (np.max(np.abs(b)) or 1.0):
+                    out["violations"].append({"what": "entry_differs_from_single_run", "tower": tw.name, "step": i, "field": k})
+out["entries"] = n
+print("COLD-RESULT " + json.dumps(out))
+"""
+
+
+def run_cold(case):
+    """First use: a subprocess with an EMPTY numba cache directory; the parent solves with several threads (this compiles
+    and caches the threaded kernel and starts the numba thread pool), then run_bldfm_parallel forks its workers."""
+    import subprocess
+    import sys
+    import tempfile
+
+    d = tempfile.mkdtemp(prefix="c14cold", dir=os.getcwd())
+    env = dict(os.environ, NUMBA_CACHE_DIR=os.path.join(d, "nb"))
+    strat, pth = case["strategy"], case["parent_threads"]
+    ctx = dict(strategy=strat, workers=2, options=dict(kernel_cache="empty", parent_threads=pth, shape=(2, 2)))
+    try:
+        r = subprocess.run([sys.executable, "-c", COLD, strat, str(pth)], env=env, cwd=d, capture_output=True, text=True, timeout=1200)
+    except subprocess.TimeoutExpired:
+        return {"harness_error": "cold-cache subprocess exceeded 1200 s (watchdog; inconclusive)"}
+    line = [l for l in r.stdout.splitlines() if l.startswith("COLD-RESULT ")]
+    if not line:
+        return {"evals": 1, "nontrivial": True, "sig": [f"cold|{strat}|{pth}"], "buckets": {"kernel_cache:empty": 1},
+                "violations": [dict(what="parallel_driver_raises", exc=f"process died rc={r.returncode}: " + r.stderr[-300:], **ctx)]}
+    o = json.loads(line[0][len("COLD-RESULT "):])
+    viol = [dict(v, **ctx) for v in o["violations"]]
+    b = {"kernel_cache:empty": 1, f"strategy:{strat}": 1, "parent_threads:%d" % pth: 1}
+    if o["pool_live"]:
+        b["parent_thread_pool_live_before_fork"] = 1
+    return {"evals": max(1, o.get("entries", 0)), "nontrivial": True, "sig": [f"cold|{strat}|{pth}"], "buckets": b,
+            "counters": {"driver_calls": 1, "parallel_calls": 1, "entries_compared": o.get("entries", 0), "cold_cache_runs": 1},
+            "violations": viol, "sample": dict(ctx, threading_layer=o.get("layer"))}
+
+
 def run_case(case):
     import shutil
     import warnings
+
+    if case.get("kind") == "cold":
+        return run_cold(case)
 
     import numpy as np
     import bldfm
@@ -211,6 +295,13 @@ def run_case(case):
         if parent_threads > 1:
             # create the parent's thread pool before anything forks
             bldfm.run_bldfm_single(cfg, cfg.towers[0], met_index=0)
+            try:
+                import numba
+
+                numba.threading_layer()  # raises unless numba's thread pool was really started by that solve
+                buckets["parent_thread_pool_live_before_fork"] = 1
+            except Exception:
+                buckets["parent_thread_pool_NOT_started_by_threaded_solve"] = 1
         # serial drivers (timeseries per tower, multitower), cache as configured
         clean_cache()
         for tw in cfg.towers[:2]:
@@ -312,4 +403,7 @@ def finalize(results, tier):
     for strat in ("towers", "time", "both"):
         if b.get(f"strategy:{strat}", 0) and not b.get(f"out_of_order:{strat}", 0):
             inc.append(f"no out-of-order completion was observed for strategy '{strat}': the any-completion-order clause was not exercised")
+    if b.get("parent_threads:4", 0) and not b.get("parent_thread_pool_live_before_fork", 0):
+        inc.append("no driver call was made from a parent whose numba thread pool was really running (the multi-thread solve in the parent "
+                   "did not start one): the any-thread-setting-of-the-parent clause was not exercised")
     return {"inconclusive": inc}
